@@ -549,8 +549,14 @@ EVAL_TIE_CHECK = (
   '| None => false end')
 
 
+def regenerate(ctx):
+  """Shared with C04: Engine._get_undo_checkpoint / _undo_to_checkpoint (get_formula_value's try / finally)."""
+  c04.regenerate(ctx)
+
+
 def correspond(ctx):
   import random
+  c04.validate_translation(ctx)
   tc = c04.TieCollector(ctx.n(8, 60))
   hooks = tc.hooks()
   cases = []
